@@ -5,10 +5,14 @@ import (
 	"strconv"
 	"strings"
 	"text/scanner"
+	"unicode/utf8"
 )
 
 // The model's text alphabet on the wire: every character as two hex digits, every number literal
-// as 'N' followed by the 16 hex digits of the double it denotes (sign included).
+// as 'N' followed by the 16 hex digits of the double it denotes (sign included), and 'X' for a
+// stretch of text on which text/scanner reports a lexical error (the model's symbol Bad: a malformed
+// numeric literal, an invalid UTF-8 byte).  The wire text ends at the first lexical error (NUL
+// included): wkt_lexer.go returns the scanner's error there and nothing behind it is ever read.
 
 func isLetter(c byte) bool { return c == '_' || 'A' <= c && c <= 'Z' || 'a' <= c && c <= 'z' }
 func isDigit(c byte) bool  { return '0' <= c && c <= '9' }
@@ -78,8 +82,33 @@ func oneScannerToken(lit string) bool {
 	return scn.Scan() == scanner.EOF && !bad
 }
 
+// firstTokenLexError asks text/scanner itself (the oracle, in the mode wkt_lexer.go uses) whether
+// scanning the first token of s makes it report an error.
+func firstTokenLexError(s string) bool {
+	var scn scanner.Scanner
+	scn.Init(strings.NewReader(s))
+	scn.Mode = scanner.ScanInts | scanner.ScanFloats | scanner.ScanIdents
+	bad := false
+	scn.Error = func(*scanner.Scanner, string) { bad = true }
+	scn.Scan()
+	return bad
+}
+
+// anyLexError: does text/scanner report an error anywhere in s?
+func anyLexError(s string) bool {
+	var scn scanner.Scanner
+	scn.Init(strings.NewReader(s))
+	scn.Mode = scanner.ScanInts | scanner.ScanFloats | scanner.ScanIdents
+	bad := false
+	scn.Error = func(*scanner.Scanner, string) { bad = true }
+	for i := 0; i < len(s)+2 && scn.Scan() != scanner.EOF; i++ {
+	}
+	return bad
+}
+
 // toModel converts real text into the model alphabet; ok=false when the text cannot be expressed
-// (a number glued to letters, octal-looking literals, non-ASCII).
+// (a number glued to letters, literals text/scanner reads without complaint but strconv does not
+// read as decimal floats - octal-looking, hexadecimal, with digit separators -, valid non-ASCII).
 func toModel(s string) (string, bool) {
 	var sb strings.Builder
 	inIdent := false
@@ -87,7 +116,15 @@ func toModel(s string) (string, bool) {
 	for i < len(s) {
 		c := s[i]
 		if c >= 0x80 {
+			if r, size := utf8.DecodeRuneInString(s[i:]); r == utf8.RuneError && size == 1 {
+				sb.WriteByte('X') // "invalid UTF-8 encoding"
+				return sb.String(), true
+			}
 			return "", false
+		}
+		if c == 0 {
+			sb.WriteString("00") // "invalid character NUL"
+			return sb.String(), true
 		}
 		if isLetter(c) || inIdent && isDigit(c) {
 			hexChars(&sb, s[i:i+1])
@@ -106,13 +143,18 @@ func toModel(s string) (string, bool) {
 				return "", false
 			}
 			end, ok := scanLiteral(s, k)
-			if !ok {
+			if !ok || !oneScannerToken(s[k:end]) {
+				if firstTokenLexError(s[k:]) {
+					// a malformed literal (09, 1e, 0x, 1__0, ...): the lexer's error
+					if neg {
+						hexChars(&sb, "-")
+					}
+					sb.WriteByte('X')
+					return sb.String(), true
+				}
 				return "", false
 			}
 			lit := s[k:end]
-			if !oneScannerToken(lit) {
-				return "", false
-			}
 			f, err := strconv.ParseFloat(lit, 64)
 			if err != nil {
 				ne, isNum := err.(*strconv.NumError)
